@@ -11,7 +11,7 @@ Text-descriptor mode is the known finding F1 and is not under contract.
 """
 from pyvc.api import (proof, load, invariant, model, tier, fresh_int, fresh_bytes,
                       fresh_str, fresh_bool, pick, assume, check, implies,
-                      conj, disj, neg, le, same)
+                      conj, disj, neg, le, same, stub, cover)
 
 FI = 'oslo_utils/imageutils/format_inspector.py'
 GD_AT_END = 0xffffffffffffffff
@@ -355,7 +355,331 @@ def provisional_descriptor_of_a_sparse_image_names_no_type():
     check('provisional/size-stays-unknown', insp.virtual_size == 0)
 
 
+# ---------------------------------------------------------------------------
+# class-level induction for streams in the sparse class: shorter than the
+# 64-byte sparse header, or starting with a sparse header the inspector
+# admits (signature, version 1..3, descriptor at sector 1).  Everything else
+# of length >= 64 is either rejected at the 64th byte or text-descriptor
+# mode, which is the known finding F1.
+
+
+def sparse_valid(S):
+    return conj(len(S) >= 64, S[0:4] == b'KDMV', le(S, 4, 4) >= 1,
+                le(S, 4, 4) <= 3, le(S, 28, 8) * 512 == 512)
+
+
+def desc_size(S):
+    n = le(S, 36, 8) * 512
+    return n if n <= DESC_MAX else DESC_MAX
+
+
+class Token:
+    """An opaque str result (compared by identity only)."""
+
+    def __init__(self, what):
+        self.what = what
+
+
+class ParsedDescriptor:
+    """_parse_descriptor as a function of the bytes it is given (it reads
+    region('descriptor').data only and writes desc_text / vmdktype only, or
+    nothing when the bytes do not decode).  For the real descriptor of the
+    stream S[512:512+desc_size] its outcome is one fixed unknown triple; for
+    the provisional region at offset 0 of a sparse-valid stream the lemma
+    provisional_descriptor_of_a_sparse_image_names_no_type gives
+    'formatnotfound' with some text."""
+
+    def __init__(self, tokens=True):
+        self.decodes = fresh_bool('real_descriptor_decodes')
+        if tokens:
+            # opaque tokens: eat_chunk only stores the two results
+            self.text = Token('real_descriptor_text')
+            self.vtype = Token('real_descriptor_type')
+        else:
+            self.text = fresh_str('real_descriptor_text')
+            self.vtype = fresh_str('real_descriptor_type')
+        self.tokens = tokens
+
+    def provisional(self, what, tag=''):
+        """Some str left behind by a parse of the provisional region."""
+        if self.tokens:
+            return Token(what)
+        return fresh_str(what + tag)
+
+
+def vmdk_stub_parse(M, S, PD):
+    def parse(self):
+        d = self.region('descriptor')
+        if d.offset == 0:
+            check('step/provisional-parse-sees-a-stream-prefix',
+                  d.data == S[0:len(d.data)] and len(d.data) >= 4)
+            if fresh_bool('provisional_bytes_decode'):
+                self.desc_text = Token('provisional_text')
+                if sparse_valid(S):
+                    self.vmdktype = 'formatnotfound'
+                else:
+                    self.vmdktype = Token('provisional_type')
+            return
+        check('step/parse-sees-the-whole-descriptor-of-the-stream',
+              d.offset == 512 and d.data == S[512:512 + desc_size(S)])
+        if PD.decodes:
+            self.desc_text = PD.text
+            self.vmdktype = PD.vtype
+    stub(M, 'VMDKInspector._parse_descriptor', parse)
+
+
+def vmdk_put_in_R(M, S, q, PD, tag=''):
+    insp = M.VMDKInspector()
+    insp._total_count = q
+    if q < 64:
+        insp.region('header').data = S[0:q]
+        if q < 4:
+            insp.region('descriptor').data = S[0:q]
+        else:
+            x = fresh_int('provisional_bytes' + tag, 4, q)
+            insp.region('descriptor').data = S[0:x]
+            if fresh_bool('provisional_parsed' + tag):
+                insp.desc_text = PD.provisional('provisional_text', tag)
+                if sparse_valid(S):
+                    insp.vmdktype = 'formatnotfound'
+                else:
+                    insp.vmdktype = PD.provisional('provisional_type', tag)
+        return insp
+    assume(sparse_valid(S))
+    h = fresh_int('header_bytes' + tag, 64, min(q, 512))
+    insp.region('header').data = S[0:h]
+    insp.delete_region('descriptor')
+    if le(S, 56, 8) == GD_AT_END:
+        f0 = fresh_int('footer_window_opened_at' + tag, 0, 63)
+        f = M.EndCaptureRegion(1536)
+        f.data = S[max(f0, q - 1536):q]
+        f.offset = q - len(f.data)
+        insp.ghost_footer_opened_at = f0
+        insp.new_region('footer', f)
+        insp.add_safety_check(M.SafetyCheck('footer', insp.check_footer))
+    ds = desc_size(S)
+    d = M.CaptureRegion(512, ds)
+    d.data = S[512:min(q, 512 + ds)]
+    insp.new_region('descriptor', d)
+    # (a zero-length descriptor region is complete, and parsed, at once)
+    if (ds == 0 or q >= 512 + ds) and PD.decodes:
+        insp.desc_text = PD.text
+        insp.vmdktype = PD.vtype
+    elif fresh_bool('stale_provisional_text' + tag):
+        insp.desc_text = PD.provisional('provisional_text', tag)
+    return insp
+
+
+def vmdk_check_R(insp, S, q, PD, tag, f0=None):
+    M = load(FI)
+    names = list(insp._capture_regions.keys())
+    check(tag + '/position', insp._total_count == q)
+    check(tag + '/not-finished', insp._finished == False)  # noqa
+    hd = insp.region('header') if 'header' in names else None
+    if q < 64:
+        check(tag + '/before-the-header-is-in',
+              names == ['header', 'descriptor'] and hd.data == S[0:q]
+              and (hd.offset, hd.length, hd.min_length) == (0, 512, 64))
+        d = insp.region('descriptor')
+        x = len(d.data)
+        check(tag + '/provisional-descriptor-holds-a-stream-prefix',
+              (d.offset, d.length, d.min_length) == (0, DESC_MAX, 4)
+              and d.data == S[0:x] and x <= q and (x == q or x >= 4))
+        check(tag + '/provisional-type-of-a-sparse-image',
+              implies(sparse_valid(S), insp.vmdktype == 'formatnotfound'))
+        check(tag + '/checks-registered',
+              list(insp._safety_checks.keys()) == ['descriptor'])
+        return
+    check(tag + '/sparse-class', sparse_valid(S))
+    gd_end = le(S, 56, 8) == GD_AT_END
+    check(tag + '/region-table',
+          names == (['header', 'footer', 'descriptor'] if gd_end
+                    else ['header', 'descriptor']))
+    check(tag + '/checks-registered',
+          list(insp._safety_checks.keys())
+          == (['descriptor', 'footer'] if gd_end else ['descriptor']))
+    h = len(hd.data)
+    check(tag + '/header-holds-at-least-the-sparse-header',
+          (hd.offset, hd.length, hd.min_length) == (0, 512, 64)
+          and 64 <= h and h <= 512 and h <= q and hd.data == S[0:h])
+    d = insp.region('descriptor')
+    ds = desc_size(S)
+    check(tag + '/descriptor-region-in-sync',
+          d.offset == 512 and d.length == ds and d.min_length is None
+          and d.data == S[512:min(q, 512 + ds)])
+    if gd_end:
+        f = insp.region('footer')
+        check(tag + '/footer-window-is-the-stream-tail',
+              isinstance(f, M.EndCaptureRegion) and f.length == 1536
+              and 0 <= f0 and f0 <= 63
+              and f.data == S[max(f0, q - 1536):q]
+              and f.offset == q - len(f.data))
+    if (ds == 0 or q >= 512 + ds) and PD.decodes:
+        check(tag + '/descriptor-parsed-once-complete',
+              insp.desc_text is PD.text and insp.vmdktype is PD.vtype)
+    else:
+        check(tag + '/no-create-type-before-the-descriptor-is-in',
+              insp.vmdktype == 'formatnotfound')
+    check(tag + '/memory-bound', 512 + ds + 1536 <= 1536 * 1024
+          and sum(insp.context_info.values()) <= 512 + ds + 1536, 'C05')
+
+
+VMDK_STEP_TARGETS = [(FI, 'FileInspector.eat_chunk'),
+                     (FI, 'FileInspector._capture'),
+                     (FI, 'CaptureRegion.capture'),
+                     (FI, 'EndCaptureRegion.capture'),
+                     (FI, 'VMDKInspector.post_process'),
+                     (FI, 'VMDKInspector.region_complete'),
+                     (FI, 'VMDKInspector._initialize')]
+VMDK_STEP_ASSUMES = [
+    '_parse_descriptor is used through its functional model (reads '
+    'region(descriptor).data, writes desc_text/vmdktype or nothing); its '
+    'provisional use on a sparse image through the lemma '
+    'provisional_descriptor_of_a_sparse_image_names_no_type', 'A-CODEC',
+    'str.isprintable/isspace uninterpreted',
+    'streams of length >= 64 outside the sparse class are not covered '
+    '(rejected at byte 64, or text-descriptor mode = known finding F1)']
+
+
+def vmdk_step(phase):
+    """R_VMDK(S, p0) and chunk == S[p0:p]  ==>  the real eat_chunk(chunk)
+    re-establishes R_VMDK(S, p) without raising."""
+    M = load(FI)
+    S = fresh_bytes('S')
+    p0 = fresh_int('p0', 0, len(S))
+    p = fresh_int('p', p0, len(S))
+    if phase == 'before':
+        assume(p < 64)
+    elif phase == 'crossing':
+        assume(p0 < 64, p >= 64)
+    else:
+        assume(p0 >= 64)
+    assume(disj(len(S) < 64, sparse_valid(S)))
+    PD = ParsedDescriptor()
+    if phase == 'before':
+        vmdk_check_R(M.VMDKInspector(), S, 0, PD, 'init')
+    insp = vmdk_put_in_R(M, S, p0, PD)
+    vmdk_stub_parse(M, S, PD)
+    invariant(M, 'VMDKInspector.post_process', 0, lambda i, L: True,
+              name='is_text-scan')
+    insp.eat_chunk(S[p0:p])
+    if phase == 'crossing' and p >= 512 + desc_size(S):
+        cover('step/header-and-descriptor-arrive-in-one-chunk')
+    if phase == 'after' and p0 < 512 + desc_size(S) \
+            and p >= 512 + desc_size(S):
+        cover('step/descriptor-completes-later')
+    # ghost witness for the footer window: the start of the chunk that
+    # completed the header
+    f0 = p0 if phase == 'crossing' else getattr(
+        insp, 'ghost_footer_opened_at', None)
+    vmdk_check_R(insp, S, p, PD, 'step', f0)
+
+
+@proof(['C01', 'C05', 'C02'], targets=VMDK_STEP_TARGETS, native=False,
+       assumes=VMDK_STEP_ASSUMES)
+def vmdk_sparse_step_before_the_header():
+    vmdk_step('before')
+
+
+@proof(['C01', 'C05', 'C02'], targets=VMDK_STEP_TARGETS, native=False,
+       assumes=VMDK_STEP_ASSUMES)
+def vmdk_sparse_step_completing_the_header():
+    vmdk_step('crossing')
+
+
+@proof(['C01', 'C05', 'C02'], targets=VMDK_STEP_TARGETS, native=False,
+       assumes=VMDK_STEP_ASSUMES)
+def vmdk_sparse_step_after_the_header():
+    vmdk_step('after')
+
+
+@proof(['C01', 'C07', 'C03'],
+       targets=[(FI, 'VMDKInspector.virtual_size'),
+                (FI, 'VMDKInspector.format_match'),
+                (FI, 'FileInspector.complete'),
+                (FI, 'FileInspector.finish'),
+                (FI, 'VMDKInspector.check_descriptor')], native=False,
+       assumes=['check_descriptor / check_footer are functions of '
+                '(desc_text, vmdktype) and (header[:64], footer window): '
+                'check_descriptor_contract, check_footer_contract',
+                'streams whose footer window opened less than 1536 bytes '
+                'before the end are the known finding F3'])
+def vmdk_sparse_state_is_a_function_of_the_stream():
+    """Any two inspectors in R_VMDK(S, q) - whatever chunkings produced
+    them (init + the three step proofs) - give the same verdict once
+    finished: only the number of header bytes beyond the first 64, the text
+    left over from the provisional region while no real descriptor has been
+    parsed, and (F3) a footer window that opened late can differ."""
+    M = load(FI)
+    S = fresh_bytes('S')
+    q = fresh_int('q', 0, len(S))
+    assume(disj(len(S) < 64, sparse_valid(S)))
+    PD = ParsedDescriptor(tokens=False)
+    a = vmdk_put_in_R(M, S, q, PD, '_a')
+    b = vmdk_put_in_R(M, S, q, PD, '_b')
+    a.finish()
+    b.finish()
+    check('unique/format-match', a.format_match == b.format_match)
+    check('unique/virtual-size', a.virtual_size == b.virtual_size)
+    if q >= 64:
+        check('unique/virtual-size-is-capacity-times-512-or-zero',
+              a.virtual_size == 0
+              or a.virtual_size == 512 * le(S, 12, 8), 'C07')
+        ha = a.region('header').data
+        hb = b.region('header').data
+        check('unique/sparse-header', ha[0:64] == hb[0:64])
+        check('unique/descriptor-bytes', a.region('descriptor').data
+              == b.region('descriptor').data)
+        check('unique/create-type', same(a.vmdktype, b.vmdktype))
+        ds = desc_size(S)
+        if (ds == 0 or q >= 512 + ds) and PD.decodes:
+            check('unique/descriptor-text', same(a.desc_text, b.desc_text))
+        else:
+            # no descriptor parsed: whatever the provisional region left
+            # behind, the descriptor check refuses
+            for insp in (a, b):
+                refused = False
+                try:
+                    insp.check_descriptor()
+                except M.SafetyViolation:
+                    refused = True
+                check('unique/descriptor-check-refuses-without-a-'
+                      'descriptor', refused)
+        if a.has_region('footer') and q >= 1536 + 63:
+            check('unique/footer-window', a.region('footer').data
+                  == b.region('footer').data
+                  and a.region('footer').complete
+                  and b.region('footer').complete)
+        check('unique/complete', a.complete == b.complete
+              or (a.has_region('footer') and q < 1536 + 63))
+    else:
+        check('unique/short-stream-is-incomplete-and-sizeless',
+              a.complete == False and b.complete == False  # noqa
+              and a.virtual_size == 0)
+    cover('unique/reached')
+
+
 CANARIES = [
+    dict(name='vmdk-new-regions-do-not-see-the-current-chunk', prop='C01',
+         file=FI, proofs=['vmdk_sparse_step_completing_the_header'],
+         old="""            self._capture(chunk, only=[self.region_name(r)
+                                       for r in new_regions])""",
+         new="""            pass""", expect='step/'),
+    dict(name='region-complete-never-fires', prop='C01', file=FI,
+         proofs=['vmdk_sparse_step_after_the_header'],
+         old="        for region in post_complete - pre_complete:",
+         new="        for region in pre_complete - post_complete:",
+         expect='step/descriptor-parsed'),
+    dict(name='footer-window-one-sector-short', prop='C01', file=FI,
+         proofs=['vmdk_sparse_step_completing_the_header'],
+         old="            self.new_region('footer', EndCaptureRegion(1536))",
+         new="            self.new_region('footer', EndCaptureRegion(1024))",
+         expect='step/footer'),
+    dict(name='provisional-descriptor-kept', prop='C01', file=FI,
+         proofs=['vmdk_sparse_step_completing_the_header'],
+         old="        if self.region('descriptor').offset == 0:",
+         new="        if self.region('descriptor').offset == 1:",
+         expect='step/'),
     dict(name='desc-clamp-on-sectors', prop='C05', file=FI,
          proofs=['post_process_contract'],
          old='        desc_size = min(desc_num * 512, self.DESC_MAX_SIZE)',
